@@ -306,6 +306,10 @@ def tree_integrity(rec, ep, rnd, k, where, case):
             break
 
 
+POLLUTER = ('amount = 0\nmonth = 99\nyear = 1\nbig = -1\nlabel = "polluted"\nis_big = true\nhas_memo = true\n'
+            'field.description = "POLLUTED"\nfield.memo = "polluted"\n[Polluter]\nmatch: true\ncategory: Polluted\ntags: polluted\n')
+
+
 def make_pool(rnd, tmp, k):
     d = os.path.join(tmp, 'pool%d' % k)
     os.makedirs(d)
@@ -521,7 +525,9 @@ def run_sequence(rec, pool, pr, rnd, nops, tmp, fresh_rate):
             others = [v for k, v in pool['files'].items() if v['kind'] == 'rules' and k != cur]
             if others:
                 try:
-                    eng2 = parse_merchants(rnd.choice(others)['text'], match_mode=mode)
+                    # the engine object first held another file - one of the pool, or one whose variables shadow built-in names and whose
+                    # transforms rewrite the description (anything left over from it would show at once)
+                    eng2 = parse_merchants(rnd.choice(others)['text'] if rnd.random() < .5 else POLLUTER, match_mode=mode)
                     eng2.parse(f['text'])
                     r5 = eng2.match(copy.deepcopy(txn), data_sources=copy.deepcopy(rows))
                     re_got = {'m': r5.merchant, 'c': r5.category, 's': r5.subcategory, 'tags': sorted(r5.tags),
